@@ -185,7 +185,19 @@ pub fn dispatch(id: &str, tier: Tier, seed: u64, replay: Option<&str>) -> i32 {
             fold_into_evidence("C07", "explicit_future_timestamps_racing_automatic_ones", concprops::sub_summary(&mev), "executions", mcode);
             code.max(mcode)
         }
-        "C08" => concprops::run("C08", tier, seed, replay),
+        "C08" => {
+            if let Some(path) = replay {
+                let text = std::fs::read_to_string(path).unwrap_or_default();
+                if text.contains("conc:C08S") {
+                    return concprops::replay_sub("C08S", path);
+                }
+                return concprops::run("C08", tier, seed, replay);
+            }
+            let code = concprops::run("C08", tier, seed, None);
+            let (scode, sev) = concprops::run_campaign("C08S", "C08", tier, seed);
+            fold_into_evidence("C08", "reader_pinned_while_the_generation_goes_away", concprops::sub_summary(&sev), "executions", scode);
+            code.max(scode)
+        }
         "C18" => concprops::run("C18", tier, seed, replay),
         "C20" => {
             if let Some(path) = replay {
